@@ -181,6 +181,44 @@ def end_to_end(seq, cuts):
         dqmod.time = old
 
 
+def reader_scripted(kinds):
+    """Inotify.read_events on a real instance whose next read(2) returns a scripted kernel buffer: F/T = the two halves of a
+    rename (cookie 7) of files in the root, C = a create, O = the kernel's queue-overflow marker (wd -1, IN_Q_OVERFLOW)."""
+    import os, struct, tempfile, shutil
+    from watchdog.observers import inotify_c as ic
+    base = tempfile.mkdtemp(prefix="c08r")
+    ino = ic.Inotify(base.encode(), recursive=False)
+    problems = []
+    try:
+        wd = ino._wd_for_path[base.encode()]
+        recs = []
+        for i, k in enumerate(kinds):
+            nm = b"n%d" % i
+            body = nm + b"\0" * (16 - len(nm))
+            if k == "O":
+                recs.append((-1, 0x4000, 0, b""))
+            else:
+                recs.append((wd, {"F": 0x40, "T": 0x80, "C": 0x100}[k], 7 if k in "FT" else 0, body))
+        buf = b"".join(struct.pack("iIII", w, m, c, len(b)) + b for w, m, c, b in recs)
+        real_read, fd = os.read, ino._inotify_fd
+        ino._check_inotify_fd = lambda: True
+        os.read = lambda f, n: buf if f == fd else real_read(f, n)
+        try:
+            got = ino.read_events()
+        except Exception as e:
+            return [f"read batch {kinds}: read_events raised {type(e).__name__}: {e}"]
+        finally:
+            os.read = real_read
+        want = [(m, c, os.path.join(base.encode(), b.rstrip(b"\0"))) for w, m, c, b in recs if w != -1]
+        have = [(e.mask, e.cookie, e.src_path) for e in got]
+        if have != want:
+            problems.append(f"kernel batch {list(kinds)} (O = queue-overflow marker): the reader handed on {len(have)} of {len(want)} notifications: {[(hex(m), c, os.path.basename(p)) for m, c, p in have]}")
+    finally:
+        ino.close()
+        shutil.rmtree(base, ignore_errors=True)
+    return problems
+
+
 def main():
     if REPLAY is not None:
         c = REPLAY
@@ -191,6 +229,9 @@ def main():
             buf = b"".join(struct.pack("iIII", wd, mask, ck, (len(nm) + 4) // 4 * 4 if nm else 0) + (nm + b"\0" * ((len(nm) + 4) // 4 * 4 - len(nm)) if nm else b"") for wd, mask, ck, nm in want)
             got = list(Inotify._parse_event_buffer(buf))
             replay_result(got != want, [f"decoded {got}, written {want}"])
+        if c["kind"] == "reader":
+            pr = reader_scripted(tuple(c["kinds"]))
+            replay_result(bool(pr), pr[:2])
         if c["kind"] == "dq":
             import c17_battery
             pr = c17_battery.SCEN[c["name"]]()
@@ -198,7 +239,7 @@ def main():
             pr = check_group([tuple(x) for x in c["spec"]], [tuple(x) for x in c["preload"]]) if c["kind"] == "group" else end_to_end([tuple(x) for x in c["seq"]], set(c["cuts"]))
         replay_result(bool(pr), pr[:2])
     L = 4
-    bat = Battery({"alphabet": "FROM#1 TO#1 FROM#2 TO#2 CREATE", "batch length": f"<= {L}", "queue preloads": ["empty", "FROM#1", "FROM#2", "pair#1 + FROM#1"], "end-to-end": "sequences of length <= 4 (+IGNORED) x all batch cuts"})
+    bat = Battery({"alphabet": "FROM#1 TO#1 FROM#2 TO#2 CREATE", "batch length": f"<= {L}", "queue preloads": ["empty", "FROM#1", "FROM#2", "pair#1 + FROM#1"], "end-to-end": "sequences of length <= 4 (+IGNORED) x all batch cuts", "reader": "scripted kernel buffers of <= 3 records over FROM/TO/CREATE/queue-overflow marker through the real Inotify.read_events"})
     preloads = [[], [("F", 1)], [("F", 2)], [("P", 1), ("F", 1)]]
     for n in range(0, L + 1):
         for spec in itertools.product(ALPHA, repeat=n):
@@ -241,6 +282,14 @@ def main():
             want = [(wd, mask, ck, body.rstrip(b"\0")) for wd, mask, ck, body in recs]
             if got != want:
                 bat.fail("C08.read-batch-decoder", f"a read batch with records {want} is decoded as {got}: a notification read from the kernel is lost or altered", {"kind": "decode", "records": [[r[0], r[1], r[2], r[3].decode()] for r in want]}, "Inotify._parse_event_buffer")
+    # the reader hands on one record per kernel record, in kernel order, wherever the kernel's own queue-overflow marker (wd -1)
+    # sits in the read batch
+    for n in range(1, 4):
+        for kinds in itertools.product(("F", "T", "C", "O"), repeat=n):
+            bat.case(("reader", kinds))
+            pr = reader_scripted(kinds)
+            if pr:
+                bat.fail("C08.reader-batch", pr[0], {"kind": "reader", "kinds": list(kinds), "problems": pr[:2]}, "Inotify.read_events")
     # the timing / cross-thread clauses are DelayedQueue's (C17): its scripted interleavings are run here as well
     import c17_battery
     for name, fn in c17_battery.SCEN.items():
